@@ -56,16 +56,17 @@ def clearInViews : List FView → VName → Nat → Nat → List FView
     else v :: clearInViews vs n r c
 
 /-- `Field.Import(rowIDs, columnIDs, timestamps, clear)`; `none` = error (nothing written).
-A bit without timestamp goes to the standard view only — also on a field created with
-noStandardView, which thereby acquires a standard view; a bit with a timestamp goes to the views of
-its quantum units and (unless noStandardView) to the standard view.  Clear with timestamps is
-refused; a clear import therefore only ever touches the standard view. -/
+Like `SetBit`: a bit without timestamp goes to the standard view only — on a field created with
+noStandardView to no view at all (after "fix: Import of a bit without timestamp does not create a
+standard view on a NoStandardView field"); a bit with a timestamp goes to the views of its quantum
+units and (unless noStandardView) to the standard view.  Clear with timestamps is refused; a clear
+import therefore only ever touches the standard view. -/
 def Field.importBits (f : Field) (bits : List (Nat × Nat × Option Civil)) (clear : Bool) : Option Field :=
   if bits.any (fun b => b.2.2.isSome) && (f.q == [] || clear) then none
   else
     let views := bits.foldl (fun (vs : List FView) b =>
       let names : List VName := match b.2.2 with
-        | none => [.std]
+        | none => if f.noStd then [] else [.std]
         | some t => (viewsByTime t f.q).map .tv ++ (if f.noStd then [] else [.std])
       names.foldl (fun vs n =>
         if clear then clearInViews vs n b.1 b.2.1 else (setInViews vs n b.1 b.2.1).1) vs) f.views
